@@ -105,7 +105,7 @@ fn birkhoff_case(cx: &mut Cx, rng: &mut impl RngCore, n: usize, lagrange: bool, 
 
 /// every ORDER of every Hermite pattern on n pairs (multiplicities = a composition of n, ranks 0..mult-1 per point, all
 /// distinct arrangements): the pivot search of the elimination meets every pattern of leading zeros, at every distance
-fn birkhoff_orders(cx: &mut Cx, rng: &mut impl RngCore, n: usize) -> usize {
+fn birkhoff_orders(cx: &mut Cx, rng: &mut impl RngCore, n: usize, stride: usize) -> usize {
     fn parts(n: usize, max: usize, cur: &mut Vec<usize>, out: &mut Vec<Vec<usize>>) {
         if n == 0 { out.push(cur.clone()); return; }
         for k in (1..=n.min(max)).rev() { cur.push(k); parts(n - k, k, cur, out); cur.pop(); }
@@ -120,7 +120,8 @@ fn birkhoff_orders(cx: &mut Cx, rng: &mut impl RngCore, n: usize) -> usize {
         let mut items: Vec<(u64, usize)> = vec![];
         for (pi, m) in part.iter().enumerate() { for r in 0..*m { items.push((pi as u64, r)); } }
         let mut all = vec![]; perms(&mut items, 0, &mut all);
-        for arrangement in all {
+        for (ai, arrangement) in all.into_iter().enumerate() {
+            if ai % stride != 0 { continue; }
             // fresh points per arrangement: small ones and random ones
             let xs: Vec<Scalar> = (0..part.len()).map(|i| if count % 2 == 0 { Scalar::from(i as u64 + 1) } else { Scalar::random(&mut *rng) }).collect();
             let params: Vec<(Scalar, usize)> = arrangement.iter().map(|(pi, r)| (xs[*pi as usize], *r)).collect();
@@ -203,8 +204,9 @@ pub fn run(o: &Opts, drv: &mut Driver, rep: &mut Report) {
     let reps = (if thorough { 12 } else { 1 }) * o.scale;
     for r in 0..reps { for deg in 0..=24usize { poly_case(&mut cx, &mut rng, deg, r * 25 + deg as u64); } }
     // Birkhoff: every arrangement of every Hermite pattern up to 4 (quick) / 6 (thorough) pairs
-    let omax = if thorough { 6 } else { 4 };
-    let mut total = 0; for n in 1..=omax { total += birkhoff_orders(&mut cx, &mut rng, n); }
+    let omax = if thorough { 5 } else { 4 };
+    let mut total = 0; for n in 1..=omax { total += birkhoff_orders(&mut cx, &mut rng, n, 1); }
+    if thorough { let k = birkhoff_orders(&mut cx, &mut rng, 6, 11); cx.rep.hist(&format!("birkhoff-orders:n=6 every 11th arrangement ({k})")); }
     cx.rep.exhaustive.push(format!("birkhoff_coeffs on every arrangement of every Hermite rank pattern with n <= {omax} pairs ({total} arrangements)"));
     // Birkhoff / Lagrange
     let nmax = if thorough { 10 } else { 7 };
